@@ -38,9 +38,9 @@ func jitter(seed int64) func(simnet.Link) {
 }
 
 func unitC20core(e common.Env, p *common.Part) {
-	p.Rule = "race-detector build; real Loud/Silent schemes with scripted backends on the simulated network in concurrent mode (one dispatcher goroutine per link, PRNG micro-delays of 20..150 us and yields); scenarios: staggered first calls (peers' traffic reaches a node before and while its first KeyGen/Sign sets up), duplicated transmissions, 2-3 sessions at once on different topics, SetStoredData followed by Sign from another goroutine, cancelled sessions followed by new ones, four goroutines per node calling KeyGen and Sign on one scheme object with contexts that are over or end within microseconds, the synchronisation traffic of a finished key generation re-sent continuously from its origins while further key generations start (stale queries and announcements with valid tags reach a node before and while its Synchronize sets up); repeated because reports vary per run; distinct key = (scenario, repetition, delivery-order hash); non-trivial when >=2 dispatcher goroutines were active"
+	p.Rule = "race-detector build; real Loud/Silent schemes with scripted backends on the simulated network in concurrent mode (one dispatcher goroutine per link, PRNG micro-delays of 20..150 us and yields); scenarios: staggered first calls (peers' traffic reaches a node before and while its first KeyGen/Sign sets up), duplicated transmissions, 2-3 sessions at once on different topics, SetStoredData followed by Sign from another goroutine, cancelled sessions followed by new ones, key generations that complete while three signing sessions on other topics synchronise, four goroutines per node calling KeyGen and Sign on one scheme object with contexts that are over or end within microseconds, the synchronisation traffic of a finished key generation re-sent continuously from its origins while further key generations start (stale queries and announcements with valid tags reach a node before and while its Synchronize sets up); repeated because reports vary per run; distinct key = (scenario, repetition, delivery-order hash); non-trivial when >=2 dispatcher goroutines were active"
 	reps := e.Pick(12, 120)
-	scen := []string{"staggered-keygen-loud", "staggered-keygen-silent", "sign-concurrent-topics", "duplicates", "setdata-then-sign", "cancel-then-retry", "msgbox-with-ticking-clock", "stale-sync-flood-loud", "stale-sync-flood-silent", "api-calls-from-several-goroutines"}
+	scen := []string{"staggered-keygen-loud", "staggered-keygen-silent", "sign-concurrent-topics", "duplicates", "setdata-then-sign", "cancel-then-retry", "msgbox-with-ticking-clock", "stale-sync-flood-loud", "stale-sync-flood-silent", "api-calls-from-several-goroutines", "keygen-while-signing-on-other-topics"}
 	idx := 0
 	for r := 0; r < reps; r++ {
 		for _, sc := range scen {
@@ -221,6 +221,33 @@ func runC20core(sc string, rep int, rng *rand.Rand) (string, int) {
 		}
 		close(stop)
 		fw.Wait()
+	case "keygen-while-signing-on-other-topics":
+		// key generations that COMPLETE while the synchronisation traffic of signing sessions on other topics is being dispatched:
+		// whatever a continuation does to the shared tables on its way out runs concurrently with the dispatch of that traffic
+		for _, u := range ids {
+			c.Schemes[u].SetStoredData([]byte("share-of-x"))
+		}
+		for round := 0; round < 4; round++ {
+			var sw sync.WaitGroup
+			for tpc := 0; tpc < 3; tpc++ {
+				t := fmt.Sprintf("kws-%d-%d-%d", rep, round, tpc)
+				if silent {
+					c.SetPick(t, ids)
+				}
+				for _, u := range ids {
+					u := u
+					d := time.Duration(rng.Intn(400)) * time.Microsecond
+					sw.Add(1)
+					go func() {
+						defer sw.Done()
+						time.Sleep(d)
+						c.Schemes[u].Sign(ctx, []byte("digest-0123456789abcdef0123456789"), t)
+					}()
+				}
+			}
+			keygen(ctx)
+			sw.Wait()
+		}
 	case "api-calls-from-several-goroutines":
 		// "several sessions may run at once" starts at the API: four goroutines per node call KeyGen and Sign with contexts that
 		// are over or end within microseconds, so that admissions, refusals and returns of different calls on ONE scheme object
